@@ -6,7 +6,11 @@ package check_test
 import (
 	"context"
 	"errors"
+	"fmt"
+	"os"
+	"os/exec"
 	"runtime"
+	"strings"
 	"testing"
 	"time"
 
@@ -143,5 +147,38 @@ func TestVerifC02DepthLimitTurnsDeniedIntoAllowed(t *testing.T) {
 		if res.Err == nil && res.Membership == checkgroup.IsMember {
 			t.Fatalf("DEFECT: allowed at max-depth %d but denied by the unbounded semantics", depth)
 		}
+	}
+}
+
+// C15 obligation (*Engine).checkComputedSubjectSet/dec@(*Engine).checkIsAllowed:
+// a permission that refers to itself through a computed subject set recurses eagerly at
+// the same depth until the goroutine stack overflows (fatal: the whole process dies).
+// The crash is observed in a child process.
+func TestVerifC15SelfReferentialPermissionOverflowsStack(t *testing.T) {
+	if os.Getenv("VERIF_CHILD") == "1" {
+		and := &ast.SubjectSetRewrite{Operation: ast.OperatorAnd, Children: ast.Children{css("a"), css("a")}}
+		_, e := vfSetup(t, []ast.Relation{{Name: "a", SubjectSetRewrite: and}}, nil)
+		ctx, cancel := context.WithCancel(context.Background())
+		res := e.CheckRelationTuple(ctx, tupleFromString(t, "d:o#a@u"), 3)
+		cancel()
+		time.Sleep(300 * time.Millisecond)
+		fmt.Printf("CHILD-RETURNED %v\n", res.Membership)
+		return
+	}
+	cmd := exec.Command(os.Args[0], "-test.run=^TestVerifC15SelfReferentialPermissionOverflowsStack$", "-test.timeout=120s")
+	cmd.Env = append(os.Environ(), "VERIF_CHILD=1")
+	out, err := cmd.CombinedOutput()
+	_ = err
+	if !strings.Contains(string(out), "CHILD-RETURNED") {
+		tail := string(out)
+		if i := strings.Index(tail, "goroutine stack exceeds"); i >= 0 {
+			tail = tail[i:]
+			if len(tail) > 200 {
+				tail = tail[:200]
+			}
+		} else if len(tail) > 400 {
+			tail = tail[len(tail)-400:]
+		}
+		t.Fatalf("DEFECT: a check at max-depth 3 on a self-referential permission killed the process: %v\n%s", err, tail)
 	}
 }
